@@ -120,6 +120,7 @@ def make_reg():
     reg = make_registry()
     install_trace_funcs(reg)
     register_classes(reg, [W + "errors.py", W + "_wordlist.py", W + "_input.py"])
+    reg.regex_abstract = True
     reg.drop_calls += ["self._evolve_wormhole_status", "self._evolve_status", "self._start_timing.finish",
                        "self._timing.add", "self._debug"]
     em, fm = reg.ext_models, reg.func_models
@@ -658,8 +659,12 @@ def e_msg_allocated(eng, it, objs):
     it.ctx.assume(T_(it, objs, "allocate_owed"))
     setg(objs, "allocate_owed", False)
     np = inp(it, "nameplate", "str")
-    # conformant server: nameplates are decimal numerals
-    it.ctx.assume(z3.InRe(np.z, z3.Plus(z3.Range("0", "9"))))
+    # conformant server: the nameplate it allocates is one the client's own validator accepts
+    vn = source.find_func(W + "_nameplate.py:validate_nameplate")
+    try:
+        it.call(VFunc(vn, None, None, "validate_nameplate"), [np], {})
+    except PyRaise:
+        raise PathEnd("non-conformant nameplate")
     deliver(it, objs, "allocated", nameplate=np)
 
 
